@@ -202,7 +202,7 @@ def routing(prog: Program, ports_cfg, stats, props=('C01', 'C02'), trace_out=Non
                         side = 'user' if cl is None else f'client:{cl}'
                         w.bind(w.slot(ploc, ev.direction, ev.name), w.handler(side, prt, ev))
                 else:
-                    w.bind(w.slot(enc_port, ev.direction, ev.name), w.handler('comp', prt, ev))
+                    w.bind(w.comp_slot(prt, ev), w.handler('comp', prt, ev))
             # ---- invoke every slot
             for ev in itf.events:
                 user_calls = (prt.direction == 'provides') == (ev.direction == 'in')
@@ -435,7 +435,7 @@ def multi_client_step(prog: Program, ports_cfg, stats, n_clients: int = 3) -> Li
                         for c, ploc in handles.items():
                             w.bind(w.slot(ploc, 'out', ev.name), w.handler(f'client:{c}', prt, ev))
                     else:
-                        w.bind(w.slot(enc_port, 'in', ev.name), w.handler('comp', prt, ev))
+                        w.bind(w.comp_slot(prt, ev), w.handler('comp', prt, ev))
                 for other in _exposed(model):                 # all remaining ports fully bound
                     if other.name == prt.name:
                         continue
@@ -443,7 +443,7 @@ def multi_client_step(prog: Program, ports_cfg, stats, n_clients: int = 3) -> Li
                     oenc = w.encapsulee().fields[other.name]
                     for ev in w.itf_of(other).events:
                         user_binds = (other.direction == 'provides') == (ev.direction == 'out')
-                        w.bind(w.slot(oloc if user_binds else oenc, ev.direction, ev.name),
+                        w.bind(w.slot(oloc, ev.direction, ev.name) if user_binds else w.comp_slot(other, ev),
                                w.handler('user' if user_binds else 'comp', other, ev))
                 w.call_method('FinalConstruct', [M.PtrV(None)])
                 holder = None
@@ -453,8 +453,7 @@ def multi_client_step(prog: Program, ports_cfg, stats, n_clients: int = 3) -> Li
                 if pre is not None:
                     n0 = len(w.calls)
                     _p, _a, ret = w.invoke(w.slot(handles[pre], 'in', claim.name), claim, f'pre-claim@{pre}')
-                    was_granted, _ = oracle.valid(w.calls[n0].reply == grant)
-                    if not was_granted:
+                    if not w.m.decide(w.calls[n0].reply == grant):
                         return 'skip'          # the not-granted branch of the pre-state history
                     holder = pre
                     ctx['history'].append(f'{pre}.{claim.name} -> granted')
@@ -464,46 +463,35 @@ def multi_client_step(prog: Program, ports_cfg, stats, n_clients: int = 3) -> Li
                 # ---- the step
                 if op == 'claim':
                     n0 = len(w.calls)
-                    passed, after, ret = w.invoke(w.slot(handles[actor], 'in', claim.name), claim,
-                                                  f'claim@{actor}')
+                    nf = len(findings)
+                    # forwarded exactly once, through the dispatcher, arguments / out / inout / reply intact
+                    check_event(w, oracle, prt, claim, w.slot(handles[actor], 'in', claim.name), 'comp', 'MTS',
+                                True, findings, f'{prt.name}.in.{claim.name}@{actor}', props=('C01', 'C02'))
                     calls = w.calls[n0:]
-                    if len(calls) != 1 or calls[0].side != 'comp' or calls[0].event != claim.name:
-                        findings.append(Finding('C04', f'claim by {actor} is not forwarded exactly once to the '
-                                                       f'component\'s {claim.name}', ctx))
+                    if len(findings) > nf or len(calls) != 1:
+                        for f in findings[nf:]:
+                            f.witness.update(ctx)
                         return None
-                    if not calls[0].in_dispatcher:
-                        findings.append(Finding('C04', 'claim does not reach the component through the dispatcher', ctx))
-                    term = ret.term if isinstance(ret, M.Sym) else ret
-                    ok, _m = oracle.valid(term == calls[0].reply)
-                    if not ok:
-                        findings.append(Finding('C04', 'claim reply is not returned to the claiming client', ctx))
-                    for i, _f in enumerate(claim.formals):
-                        if calls[0].args[i] is not None:
-                            ok, _m = oracle.valid(calls[0].args[i] == passed[i])
-                            if not ok:
-                                findings.append(Finding('C04', f'claim argument {i} arrives changed', ctx))
-                    granted_v, _ = oracle.valid(calls[0].reply == grant)
-                    refused_v, _ = oracle.valid(calls[0].reply != grant)
-                    if holder is not None and holder != actor:
-                        # exclusive-access protocol: the component refuses while somebody else holds
-                        if not refused_v:
-                            return 'skip'
+                    # the scenario itself forks on "was the claim granted" (independent of how the code
+                    # under test branches on the reply)
+                    granted_v = w.m.decide(calls[0].reply == grant)
+                    if holder is not None and holder != actor and granted_v:
+                        return 'skip'      # exclusive-access protocol: refused while somebody else holds
                     if granted_v:
                         holder = actor
-                    elif not refused_v:
-                        raise explore.Inconclusive('claim reply undecided on this path')
+                    mdl = oracle.model()
+                    if mdl is not None:
+                        ctx['claim_reply'] = mdl.eval(calls[0].reply, model_completion=True).as_long()
                     ctx['history'].append(f'{actor}.{claim.name} -> {"granted" if granted_v else "refused"}')
                 elif op == 'release':
                     n0 = len(w.calls)
-                    w.invoke(w.slot(handles[actor], 'in', release.name), release, f'release@{actor}')
-                    calls = w.calls[n0:]
-                    if len(calls) != 1 or calls[0].side != 'comp' or calls[0].event != release.name:
-                        findings.append(Finding('C04', f'release by {actor} is not forwarded exactly once to the '
-                                                       f'component\'s {release.name} (observed '
-                                                       f'{[(c.side, c.event) for c in calls]})', ctx))
+                    nf = len(findings)
+                    check_event(w, oracle, prt, release, w.slot(handles[actor], 'in', release.name), 'comp', 'MTS',
+                                True, findings, f'{prt.name}.in.{release.name}@{actor}', props=('C01', 'C02'))
+                    if len(findings) > nf or len(w.calls[n0:]) != 1:
+                        for f in findings[nf:]:
+                            f.witness.update(ctx)
                         return None
-                    if not calls[0].in_dispatcher:
-                        findings.append(Finding('C04', 'release does not reach the component through the dispatcher', ctx))
                     if holder == actor:
                         holder = None
                     ctx['history'].append(f'{actor}.{release.name}')
